@@ -208,13 +208,13 @@ Import C14_wp_run C14_wp.
    IdleBehavior run, never on one this pool has shown shut down, never while a process of the container is alive
    on a discovered instance; a failed Create leaves Unallocated() unchanged; at most one live process per
    container on discovered instances) and over a whole sequence *)
-Theorem C14_wp_step_ok_spec : forall shut disc prev o ob,
-  C14_wp_run.step_ok shut disc prev o ob = true <-> step_P shut disc prev o ob.
+Theorem C14_wp_step_ok_spec : forall shut disc sb prev o ob,
+  C14_wp_run.step_ok shut disc sb prev o ob = true <-> step_P shut disc sb prev o ob.
 Proof. exact wp_step_ok_spec. Qed.
 Print Assumptions C14_wp_step_ok_spec.
 
-Theorem C14_wp_spec_steps_spec : forall steps shut disc prev,
-  spec_steps shut disc prev steps = true <-> spec_P shut disc prev steps.
+Theorem C14_wp_spec_steps_spec : forall steps shut disc sb prev,
+  spec_steps shut disc sb prev steps = true <-> spec_P shut disc sb prev steps.
 Proof. exact wp_spec_steps_spec. Qed.
 Print Assumptions C14_wp_spec_steps_spec.
 
@@ -240,10 +240,30 @@ Theorem C14_wp_model_satisfies_pool_clauses : forall cs,
 Proof. exact wp_model_satisfies_pool_clauses. Qed.
 Print Assumptions C14_wp_model_satisfies_pool_clauses.
 
-Theorem C14_wp_spec_implies_pool_clauses : forall steps shut disc prev,
-  spec_P shut disc prev steps -> pool_clauses shut prev steps.
+Theorem C14_wp_spec_implies_pool_clauses : forall steps shut disc sb prev,
+  spec_P shut disc sb prev steps -> pool_clauses shut prev steps.
 Proof. exact wp_spec_implies_pool_clauses. Qed.
 Print Assumptions C14_wp_spec_implies_pool_clauses.
+
+(* the instance-list sync: Pool.sync with the threshold taken when the list request is issued.  It never drops a
+   worker updated after that threshold (whatever the answer of the cloud says), the ordinary sync is the case
+   "threshold taken immediately before", and an instance the pool creates carries a stamp later than any
+   threshold taken before: a sync whose list request was in flight during the Create keeps the new worker *)
+Theorem C14_sync_at_keeps_fresh : forall c th listed p w,
+  th <= p_clock p -> In w (p_workers p) -> th < w_updated w -> In (w_id w) (ids (pool_sync_at c th listed p)).
+Proof. exact sync_at_keeps_fresh. Qed.
+Print Assumptions C14_sync_at_keeps_fresh.
+
+Theorem C14_pool_sync_is_sync_at : forall c listed p,
+  pool_sync c listed p = pool_sync_at c (fst (tick p)) listed (snd (tick p)).
+Proof. exact pool_sync_is_sync_at. Qed.
+Print Assumptions C14_pool_sync_is_sync_at.
+
+Theorem C14_create_is_fresh : forall it newid p p',
+  pool_create it newid 0 p = (true, p') -> p_quota p = false ->
+  exists w, In w (p_workers p') /\ w_id w = newid /\ p_clock p < w_updated w.
+Proof. exact create_is_fresh. Qed.
+Print Assumptions C14_create_is_fresh.
 
 Import C14_e2e_run C14_e2e.
 (* the judge of the end-to-end event log: at every arriving start command, in the state reached by the
